@@ -2,6 +2,7 @@ import VecModel.Lemmas.Tree
 import VecModel.Lemmas.TreeRemove
 import VecModel.Lemmas.TreePath
 import VecModel.Lemmas.TreeOk
+import VecModel.Lemmas.TreeCooc
 /-
   C15 — Labelled-tree co-occurrence counts kernel-weighted walks between labels.
   Property theorems (helper lemmas in Lemmas/Tree.lean); see DESIGN.md §5 C15.
@@ -240,6 +241,54 @@ theorem path_corpus_eq_token {ws : List Rat} {dict : List Nat} {seqs : List (Lis
   | nil => rfl
   | cons s ss ih => simp only [List.map_cons, List.foldr_cons, path_eq_token, ih]
 
+/-! ### path graphs = C03's definition
+
+`path_eq_token` above compares the tree model with `tokenAfter`, an expression private to this model.
+The theorems below tie it to **C03's declarative definition** `Cooc.spec` / `Cooc.specPlain`
+(Model/Cooc.lean — the right-hand side of C03's `events_eq_spec`, which the token vectorizer's event
+loop is proved equal to) for the configuration `afterCfg n r w`: a single block, orientation
+'after', fixed radius `r`, mix weight 1, no mask, offset 0, no kernel normalisation, no window
+normalisation, positional base weights `w` (Lemmas/TreeCooc.lean).  Label codes are used as token
+ids on the C03 side; `n` (the C03 vocabulary size) is arbitrary because there is one column block. -/
+
+/-- **On path graphs the tree vectorizer is C03's `Cooc.spec`**: for every radius `r`, every
+non-negative positional weight function `w`, every sequence and every label pair, the walk-count
+term of the path tree equals the cell `(la, lb)` of C03's definition on the one-sequence corpus. -/
+theorem path_eq_cooc_spec (n r : Nat) (w : Nat → Rat) (hw : ∀ k, 0 ≤ w k) (la lb : Nat)
+    (seq : List Nat) :
+    treeTerm ((List.range r).map w) la lb (pathTree seq) =
+      Cooc.spec (afterCfg n r w) (Cooc.untimed [seq]) la lb := by
+  rw [path_eq_token, tokenAfter_eq_cooc_spec n r w hw]
+
+/-- … for every weight list `ws` (radius `ws.length`, any signs) against the unfiltered definition -/
+theorem path_eq_cooc_specPlain (n : Nat) (ws : List Rat) (la lb : Nat) (seq : List Nat) :
+    treeTerm ws la lb (pathTree seq) =
+      Cooc.specPlain
+        (afterCfg n ws.length fun k => (match ws[k]? with | some x => x | none => 0))
+        (Cooc.untimed [seq]) la lb := by
+  rw [path_eq_token]
+  conv => lhs; rw [weights_as_fn ws]
+  exact tokenAfter_eq_cooc_specPlain n ws.length _ la lb seq
+
+/-- … for the kernels of the library: with the weight vector `kernel_function(-ones(r))` of the
+flat, harmonic or geometric (power ≥ 0) kernel the tree model on a path is C03's definition with that
+kernel's base weights (`Window.Kernel.base`, the weights `Driver/Cooc` hands to `Cooc.spec`). -/
+theorem path_eq_cooc_spec_kernel (kern : Window.Kernel) (hp : ∀ p, kern = .geometric p → 0 ≤ p)
+    (n r : Nat) (la lb : Nat) (seq : List Nat) :
+    treeTerm (kernelWeights kern r) la lb (pathTree seq) =
+      Cooc.spec (afterCfg n r kern.base) (Cooc.untimed [seq]) la lb :=
+  path_eq_cooc_spec n r kern.base (kernel_base_nonneg kern hp) la lb seq
+
+/-- … for whole corpora, at the level of the output matrix: entry `(p, q)` of the tree vectorizer on
+the path forest of `seqs` is the cell of C03's definition on the corpus `seqs` for the labels with
+dictionary indices `p`, `q`. -/
+theorem path_corpus_eq_cooc_spec {n r : Nat} {w : Nat → Rat} (hw : ∀ k, 0 ≤ w k) {dict : List Nat}
+    {seqs : List (List Nat)} {G : Mat}
+    (h : cooc ((List.range r).map w) dict none .after (seqs.map pathTree) = .ok G) (hd : dict.Nodup)
+    {p q la lb : Nat} (hp : dict[p]? = some la) (hq : dict[q]? = some lb) :
+    ent G p q = Cooc.spec (afterCfg n r w) (Cooc.untimed seqs) la lb := by
+  rw [path_corpus_eq_token h hd hp hq, tokenAfter_corpus_eq_cooc_spec n r w hw]
+
 /-! ### Non-vacuity
 
 A branching 5-node tree `0→1, 1→2, 1→3, 3→4` labelled `a x b c d` (codes `0 4 1 2 3`), vocabulary
@@ -275,5 +324,24 @@ example :
     (vectorize [1, 1, 1] [0, 1, 2, 3] none false .after [exTree]).toOption =
       some [[0, 1, 1, 1], [0, 0, 0, 0], [0, 0, 0, 1], [0, 0, 0, 0]] := by
   decide +kernel
+
+/-- the path `a b a c` (codes `0 1 0 2`), radius 2, harmonic kernel: the tree model, the token-side
+expression and C03's definition give the same non-zero cells; the hypotheses of
+`path_eq_cooc_spec_kernel` hold (harmonic: no power), and the output matrix of the tree vectorizer
+on the two-path forest is C03's definition on the two-sequence corpus -/
+example :
+    treeTerm (kernelWeights .harmonic 2) 0 1 (pathTree [0, 1, 0, 2]) = 1 ∧
+    treeTerm (kernelWeights .harmonic 2) 0 2 (pathTree [0, 1, 0, 2]) = 1 ∧
+    treeTerm (kernelWeights .harmonic 2) 1 2 (pathTree [0, 1, 0, 2]) = 1 / 2 ∧
+    Cooc.spec (afterCfg 3 2 (Window.Kernel.base .harmonic)) (Cooc.untimed [[0, 1, 0, 2]]) 0 1 = 1 ∧
+    Cooc.spec (afterCfg 3 2 (Window.Kernel.base .harmonic)) (Cooc.untimed [[0, 1, 0, 2]]) 1 2 = 1 / 2 ∧
+    (cooc (kernelWeights .harmonic 2) [0, 1, 2] none .after ([[0, 1, 0, 2], [2, 0]].map pathTree)).toOption =
+      some [[1 / 2, 1, 1], [1, 0, 1 / 2], [1, 0, 0]] ∧
+    Cooc.spec (afterCfg 3 2 (Window.Kernel.base .harmonic)) (Cooc.untimed [[0, 1, 0, 2], [2, 0]]) 2 0 = 1 := by
+  refine ⟨by decide +kernel, by decide +kernel, by decide +kernel, by decide +kernel,
+    by decide +kernel, by decide +kernel, by decide +kernel⟩
+
+example : ∀ p, Window.Kernel.harmonic = .geometric p → 0 ≤ p := by
+  intro p h; cases h
 
 end VecModel.Tree
